@@ -119,7 +119,7 @@ def gen(tier, rng):
                         out.append(mk(list(t) + [Cr(refs, g), Cr([n], not g)], True, "test", True))
                         out.append(mk(list(t) + [Cr(refs, g), Cr([n, 0], g, "ok")], True, "default", True, fcs=not g))
     # 4. random collections of 1..6 rules (+ up to 3 correlation rules), any subset failing
-    for _ in range(450 if quick else 12000):
+    for _ in range(450 if quick else 8000):
         n = rng.randint(1, 6)
         p = rng.random() < 0.7
         pfail = rng.choice([0.0, 0.2, 0.5, 0.8])
